@@ -376,14 +376,15 @@ def check(seq, shape, perm, inner_reverse, resid_scheme, extra, setname, stash, 
         acc.violation(sig, desc, case)
 
 
-def check_modification(seq, shape, perm, inner_reverse, modified, acc, sample=False):
+def check_modification(seq, shape, perm, inner_reverse, modified, acc, sample=False, context=False):
     """A modification mapping: residues of type A listed in `modified` carry an extra atom x1 bonded to a3 and the label of the
     from-modification MODA; the mapping MODA -> MODB overlays bead BB (attribute replaced) and creates one new bead XB."""
     import vermouth
     from vermouth.map_parser import Mapping
     from vermouth.molecule import Modification
     from vermouth.processors.do_mapping import do_mapping
-    case = {'layer': 'modification', 'seq': ''.join(seq), 'shape': shape, 'perm': list(perm), 'inner_reverse': inner_reverse, 'modified': list(modified)}
+    case = {'layer': 'modification', 'seq': ''.join(seq), 'shape': shape, 'perm': list(perm), 'inner_reverse': inner_reverse, 'modified': list(modified),
+            'context': context}
     ff_from, ff_to, mappings, specs = build_mappings('many-to-one')
     mod_from = Modification(force_field=ff_from)
     mod_from.name = 'MODA'
@@ -396,8 +397,22 @@ def check_modification(seq, shape, perm, inner_reverse, modified, acc, sample=Fa
     mod_to.add_node('XB', atomname='XB', PTM_atom=True, atype='TX', resname='MOD')
     mod_to.add_edge('BB', 'XB')
     mod_to.add_interaction('bonds', ['BB', 'XB'], ['1', '0.2', '4000'])
-    mappings['fa']['fb'][('MODA',)] = Mapping(mod_from, mod_to, {'a3': {'BB': 1}, 'x1': {'XB': 1}}, {}, ff_from=ff_from, ff_to=ff_to,
-                                               names=('MODA',), type='modification')
+    if context:
+        # the origin graph of the modification mapping reaches into the NEXT residue (its head atom b1, which carries no
+        # modification label itself) - the place where it fits is still the same, and still yields exactly one XB
+        map_from = Modification(force_field=ff_from)
+        map_from.name = 'MODA'
+        map_from.add_node('a3', atomname='a3', PTM_atom=False)
+        map_from.add_node('x1', atomname='x1', PTM_atom=True, modifications=[mod_from])
+        map_from.add_node('b1', atomname='b1', resname='B', PTM_atom=False)
+        map_from.add_edges_from([('a3', 'x1'), ('a3', 'b1')])
+        mod_to.add_node('NB', atomname='BB', PTM_atom=False)
+        mod_to.add_edge('BB', 'NB')
+        mappings['fa']['fb'][('MODA',)] = Mapping(map_from, mod_to, {'a3': {'BB': 1}, 'x1': {'XB': 1}, 'b1': {'NB': 1}}, {}, ff_from=ff_from,
+                                                   ff_to=ff_to, names=('MODA',), type='modification')
+    else:
+        mappings['fa']['fb'][('MODA',)] = Mapping(mod_from, mod_to, {'a3': {'BB': 1}, 'x1': {'XB': 1}}, {}, ff_from=ff_from, ff_to=ff_to,
+                                                   names=('MODA',), type='modification')
     mol, keys, resids, inter = build_molecule(ff_from, seq, shape, perm, False if inner_reverse == 'natural' else inner_reverse,
                                               'consecutive', None)
     extra_tags = {}
@@ -499,7 +514,7 @@ def work(task):
         return acc
     for n, item in enumerate(task):
         if item[0] == 'modification':
-            check_modification(*item[1:], acc, sample=(acc.states % 1009 == 0))
+            check_modification(*item[1:6], acc, sample=(acc.states % 1009 == 0), context=(len(item) > 6 and item[6]))
         else:
             check(*item, acc, sample=(acc.states % 5003 == 0))
     return acc
@@ -549,6 +564,8 @@ def run(ctx):
                         for perm in itertools.permutations(range(n)):
                             for inner in (False, 'spread', 'front', 'natural'):
                                 items.append(('modification', seq, shape, perm, inner, modified))
+                                if modified and shape in ('linear', 'ring') and all(r + 1 < n and seq[r + 1] == 'B' for r in modified):
+                                    items.append(('modification', seq, shape, perm, inner, modified, True))
     acc = Acc()
     for part in common.pmap(work, list(common.chunked(items, max(1, len(items) // 96)))):
         acc += part
@@ -564,16 +581,22 @@ def run(ctx):
     for part in common.pmap(work, [('sequence', chunk) for chunk in common.chunked(seqs, max(1, len(seqs) // 32))]):
         acc += part
     ctx.layer('molecule-sequences', acc)
+    from props import cli_topology
+    cli_topology.run_layer(ctx)
 
 
 def replay(case):
     common.bind_repo()
+    if case.get('layer') == 'cli-topology':
+        from props import cli_topology
+        return cli_topology.replay(case)
     acc = Acc()
     if case.get('layer') == 'sequence':
         sequence_case((case['mapset'], [(tuple(m[0]), m[1], tuple(m[2]), m[3]) for m in case['molecules']]), acc)
         return [(s, d) for s, d, _ in acc.violations]
     if case.get('layer') == 'modification':
-        check_modification(tuple(case['seq']), case['shape'], tuple(case['perm']), case['inner_reverse'], tuple(case['modified']), acc)
+        check_modification(tuple(case['seq']), case['shape'], tuple(case['perm']), case['inner_reverse'], tuple(case['modified']), acc,
+                           context=case.get('context', False))
         return [(s, d) for s, d, _ in acc.violations]
     check(tuple(case['seq']), case['shape'], tuple(case['perm']), case['inner_reverse'], case['resids'], case['extra'],
           case['mapset'], case['stash'], acc)
